@@ -21,6 +21,8 @@ type nested struct {
 	S []withUnexported
 }
 type myInt int
+type Label string
+type NestedPub struct{ Q int }
 
 // exoticParams: values of the Go kinds the embedding API may be handed.
 func exoticParams() []exotic {
@@ -47,6 +49,18 @@ func exoticParams() []exotic {
 		{"raw-message", json.RawMessage(`{"a":1}`)}, {"net-ip", net.IPv4(127, 0, 0, 1)}, {"duration", time.Second}, {"array-of-struct", [1]withUnexported{{1, "z"}}},
 		{"slice-of-pointers", []*int{nil}}, {"map-of-nil-interface", map[string]interface{}{"n": nil}}, {"interface-slice-of-typed-nil", []interface{}{(*int)(nil), (map[string]int)(nil), ([]byte)(nil)}},
 		{"bool-key-map", map[bool]int{true: 1}}, {"float-key-map", map[float64]int{1.5: 1}}, {"struct-key-map", map[struct{ A int }]int{{1}: 1}},
+		// embedded fields (a nil pointer to a struct, a named non-struct type, a filled struct), strings with control characters
+		{"embedded-nil-pointer", struct {
+			*NestedPub
+			N int
+		}{nil, 1}}, {"embedded-named-string", struct {
+			Label
+			N int
+		}{"l", 2}}, {"embedded-struct", struct {
+			NestedPub
+			N int
+		}{NestedPub{7}, 3}}, {"embedded-pointer", struct{ *NestedPub }{&NestedPub{8}}},
+		{"control-chars", "a\x1bb\x00c\x0cd\x08e\x7f"}, {"control-chars-nested", map[string]interface{}{"k\x1b": []interface{}{"\x00", "\x1b[31mred\x1b[0m"}}},
 		{"rune", 'x'}, {"byte", byte(7)}, {"error-value", errForParam{}}, {"stringer", net.IPMask{255, 0, 0, 0}}, {"time-pointer", func() *time.Time { t := time.Unix(1, 0); return &t }()},
 	}
 }
